@@ -16,7 +16,7 @@ from vlib import xh
 from vlib import zt
 from vlib.build import build
 from vlib.driver import Report
-from vlib.par import pmap
+from vlib.par import pmap, run_groups
 from vlib.session import run_case, Violation
 
 PID = "C03"
@@ -235,10 +235,7 @@ def run(tier, seed, only=None):
                   "labels": "ints, strings, tuples, negative ints", "classes": "Z2,U1,Z2Z2,U1U1 static fermionic; Z2,U1U1 generic fermionic"}
     rep.outside = ["ranks beyond the bound", "rounding"]
     groups = build_family(tier, seed)
-    for name, (cases, ex) in groups.items():
-        if only and only not in name:
-            continue
-        rep.add_cases(name, pmap(_run, cases), exhaustive=ex)
+    run_groups(rep, groups, _run, only)
     if not only or "xh" in only:
         res, herr = xh.run_all(os.path.join(env.VERIF, "harness", "h_c03.py"), timeout=150 if tier == "quick" else 600,
                                only=(lambda n: "_5" not in n) if tier == "quick" else None)
